@@ -169,6 +169,12 @@ uint64_t cmb_wtdsummary_merge(struct cmb_wtdsummary *tgt,
     ts->min = (dsp1->min < dsp2->min) ? dsp1->min : dsp2->min;
     ts->max = (dsp1->max > dsp2->max) ? dsp1->max : dsp2->max;
 
+    if (ts->count == 0u) {
+        /* Both sources are empty: the result is an empty summary (no 0/0 below) */
+        *tgt = tws;
+        return 0u;
+    }
+
     const double w1 = ws1->wsum;
     const double w2 = ws2->wsum;
     const double ws = w1 + w2;
